@@ -509,7 +509,13 @@ func normalise(repo string, pkgs []*packages.Package) (*normResult, []*packages.
 		if mvs := newMethodValues(pkgs, helpers, skip); len(mvs) > 0 {
 			stepped := false
 			doneFile := map[string]bool{}
-			sort.Slice(mvs, func(i, j int) bool { return mvs[i].sel.Pos() > mvs[j].sel.Pos() })
+			mvPos := func(m methodValueUse) token.Pos {
+				if m.id != nil {
+					return m.id.Pos()
+				}
+				return m.sel.Pos()
+			}
+			sort.Slice(mvs, func(i, j int) bool { return mvPos(mvs[i]) > mvPos(mvs[j]) })
 			for _, mv := range mvs {
 				name := mv.pkg.Fset.Position(mv.file.Pos()).Filename
 				if doneFile[name] {
